@@ -10,9 +10,17 @@ FUNCTIONS = ['uxarray.grid.grid.Grid.get_ball_tree',
     'uxarray.grid.neighbors.KDTree.coordinates.setter@value=nodes',
     'uxarray.grid.neighbors.KDTree.coordinates.setter@value=face centers',
     'uxarray.grid.neighbors.KDTree.coordinates.setter@value=edge centers',
-    'uxarray.grid.neighbors.KDTree.coordinates.setter@value=bogus']
+    'uxarray.grid.neighbors.KDTree.coordinates.setter@value=bogus',
+    'uxarray.grid.neighbors.BallTree.query@cartesian',
+    'uxarray.grid.neighbors.BallTree.query@spherical',
+    'uxarray.grid.neighbors.KDTree.query@cartesian',
+    'uxarray.grid.neighbors.KDTree.query@spherical',
+    'uxarray.grid.neighbors.BallTree.query_radius@cartesian,count_only',
+    'uxarray.grid.neighbors.BallTree.query_radius@spherical,count_only',
+    'uxarray.grid.neighbors.KDTree.query_radius@cartesian,count_only',
+    'uxarray.grid.neighbors.KDTree.query_radius@spherical,count_only']
 STANDINS = ["neighbours"]
 ASSUMPTIONS = []
 EXPLANATION = ""
-LEVEL_TEXT = 'get_ball_tree / get_kd_tree proved to hand back a tree whose element kind, coordinate system and metric are those of THIS call from every cache state; agreement with brute force bounded (sklearn assumed correct)'
+LEVEL_TEXT = 'get_ball_tree / get_kd_tree proved to hand back a tree whose element kind, coordinate system and metric are those of THIS call from every cache state; the coordinates setter proved to select / rebuild the tree of the requested kind; query (both classes, both coordinate systems) proved in dataflow form: the wrapped sklearn query gets the prepared points and the flags of the caller (sort_results in particular) on the tree of the element kind in force, indices come back unchanged (standard dtype, squeezed for one point), spherical distances in degrees unless radians were asked for; query_radius(count_only) proved to pass the radius in the unit the tree was built in (BallTree: degrees as documented; KDTree: unit of the query points); agreement with brute force bounded (sklearn assumed correct)'
 LEVEL_NOTE = 'tree constructors as records of their arguments; tree.coordinates setter modelled; sklearn internals assumed'
